@@ -1,31 +1,28 @@
 SPECIFICATION Spec
 CONSTANTS
-  MaxLf = 2
-  MaxCalls = 5
+  MaxLf = 1
+  MaxCalls = 6
   Names = {"A", "B"}
-  SetNames = {0, 1}
-  Classes = {"CHANNEL", "ZONE"}
-  OriginRefs = {0, 1}
-  RefFrom = "NONE"
-  RefTo = "NONE"
+  SetNames = {0}
+  Classes = {"ZONE", "PARAMETER"}
+  OriginRefs = {0}
+  RefFrom = "PARAMETER"
+  RefTo = "ZONE"
   HeaderShare = FALSE
-  OkSet = {TRUE, FALSE}
+  OkSet = {TRUE}
   ForeignRefCheck = TRUE
   HeaderSetCheck = TRUE
-  Mutations = FALSE
+  Mutations = TRUE
   CopyRule = "firstfree"
   ItemRefs = {0, 7}
 VIEW View
 INVARIANT IdentityUnique
 INVARIANT RefResolves
-INVARIANT HeaderOwn
 INVARIANT OriginResolves
 INVARIANT Isolation
 INVARIANT Completeness
 INVARIANT ViewUnique
-INVARIANT FlagDiscipline
 INVARIANT CopyNumbersDense
 INVARIANT CopyNumbersDistinct
-INVARIANT ProgressTotalCovers
 PROPERTY RejectedIsNoOp
 CHECK_DEADLOCK FALSE
